@@ -215,9 +215,10 @@ def Run.blas (r : Run) (c : Case) (call : Call GInt) : Run :=
   if Front.coreThrows c.nd call then { r with stop := .throw }
   else
     let r := { r with lines := r.lines.push (callLine c.ty call) }
-    match call.illegal c.cplx with
+    -- `lenient`: the differential run is against OpenBLAS, whose xGEMM accepts a leading dimension 0 for an operand without rows
+    match call.illegal c.cplx true with
     | some p => { r with lines := r.lines.push s!"xerbla {routineUpper c.ty call} {p}" }
-    | none => { r with arena := Arena.ofMem r.arena.seed r.arena.cplx (call.exec c.cplx r.arena.mem) }
+    | none => { r with arena := Arena.ofMem r.arena.seed r.arena.cplx (call.exec c.cplx r.arena.mem true) }
 
 def absI (x : Int) : Int := if x < 0 then -x else x
 
@@ -479,7 +480,9 @@ def verdict (_c : Case) (run : Run) (snap : Arena) (sp : Option Spec) : String :
       act.getD i ⟨0, 0⟩ != snap.cells.getD i ⟨0, 0⟩ && !(match sp with | some s => s.outimg.getD i false | none => false)
     if outside then "num FAIL outside" else "num rejected"
   else match sp with
-  | none => "num FAIL accepted-mismatch"
+  | none =>
+    let changed := (List.range TOTAL).any fun i => act.getD i ⟨0, 0⟩ != snap.cells.getD i ⟨0, 0⟩
+    if changed || run.rval.isSome then "num FAIL accepted-mismatch" else "num ok"
   | some s =>
     let diffs := (List.range TOTAL).filter fun i => act.getD i ⟨0, 0⟩ != s.expect.cells.getD i ⟨0, 0⟩
     let outside := diffs.any fun i => !(s.outimg.getD i false)
@@ -511,22 +514,26 @@ def layc (m : Mat) : String :=
   let pad := if m.s1 = 1 ∧ m.s0 ≠ 1 then (if m.s0 > m.n1 then "p" else "") else if m.s0 = 1 ∧ m.s1 ≠ 1 then (if m.s1 > m.n0 then "p" else "") else ""
   u ++ pad
 
-def caseClass (c : Case) : String :=
+def sizeClass (c : Case) : String :=
   match c.op with
-  | "gemm" => let A := c.ms[0]!; let B := c.ms[1]!; let C := c.ms[2]!
-    s!"m{szc C.n0}n{szc C.n1}k{szc A.n1}:{layc A}.{layc B}.{layc C}"
-  | "gemv" => let A := c.ms[0]!; s!"m{szc A.n0}n{szc A.n1}:{layc A}"
-  | "herk" | "syrk" => let A := c.ms[0]!; let C := c.ms[1]!; s!"n{szc C.n0}k{szc A.n1}:{layc A}.{layc C}:{c.f1}"
-  | "trsm" => let A := c.ms[0]!; let B := c.ms[1]!; s!"m{szc B.n0}n{szc B.n1}:{layc A}.{layc B}:{c.f1}{c.f2}{c.f3}"
+  | "gemm" => let A := c.ms[0]!; let C := c.ms[2]!; s!"m{szc C.n0}n{szc C.n1}k{szc A.n1}"
+  | "gemv" => let A := c.ms[0]!; s!"m{szc A.n0}n{szc A.n1}"
+  | "herk" | "syrk" => let A := c.ms[0]!; let C := c.ms[1]!; s!"n{szc C.n0}k{szc A.n1}"
+  | "trsm" => let B := c.ms[1]!; s!"m{szc B.n0}n{szc B.n1}"
   | _ => match c.vs[0]? with
-    | some x => s!"n{szc x.n}:{c.ty}"
+    | some x => s!"n{szc x.n}{c.ty}"
     | none => "?"
 
-def keyLine (c : Case) (run : Run) : String :=
+def layoutClass (c : Case) : String :=
+  ".".intercalate (c.ms.toList.map layc)
+
+/-- `key <finding key> lay=<layout class> kind=<what the model does> dbg=<what an assertion-enabled build does>` -/
+def keyLine (c : Case) (run : Run) (dbg : Run) : String :=
   let (fn, tag) := run.tags.back?.getD ("?", 0)
   let ill := run.lines.any (fun l => l.startsWith "xerbla")
   let kind := if run.stop == .throw then "throw" else if run.stop == .assert then "assert" else if ill then "illegal" else "run"
-  s!"key C13:{fn}:b{tag}:{caseClass c}:{kind}"
+  let d := if dbg.stop == .throw then "throw" else if dbg.stop == .assert then "assert" else "ok"
+  s!"key C13:{fn}:b{tag}:{sizeClass c} lay={layoutClass c} kind={kind} dbg={d} op={c.op}-{c.form}"
 
 /-! ### the interpreter -/
 def answer (ws : List String) (keyMode : Bool) : List String :=
@@ -535,7 +542,7 @@ def answer (ws : List String) (keyMode : Bool) : List String :=
   | some c =>
     let snap := fixups c (Arena.init c.seed c.cplx)
     let run := runModel c { arena := snap }
-    if keyMode then [keyLine c run] else
+    if keyMode then [keyLine c run (runModel { c with nd := false } { arena := snap })] else
     if run.stop == .assert then run.lines.toList ++ ["res reject assert", "num rejected"]
     else
       let sp := spec c snap
